@@ -89,8 +89,8 @@ def run(prog, tier):
     guard(lambda: ex2.run_until(ps.body, env2, wdefs[0]))
     w = guard(lambda: ex2.eval(wdefs[0].value, env2))
     want_w = Fraction(1, 2) * (p1 + p0) * (x1 - x0)
-    ratio = w.div(want_w)
-    ok = ratio.is_const() and ratio.const_value() > 0
+    ratio = anf.proportional(w, want_w)
+    ok = ratio is not None and ratio > 0
     normalised = len(wnorm) == 1 and isinstance(wnorm[0].op, ast.Div) and ast.unparse(wnorm[0].value) == "weights.sum()"
     obs.append(struct_ob("cell-weight", fqual(mi, ps), ok and normalised,
                          f"cell probabilities must be proportional to mean height x width = 1/2 (p1+p0)(x1-x0) and normalised by "
